@@ -268,7 +268,7 @@ Definition WFnet (net : network) : Prop :=
    dictionary: AttributeError (not caught by __contains__). *)
 (* ONE-LINE MODEL SWITCH (read by harness/c20.py too): false = the code as it is (attribute fallback, finding F3);
    true = the code with /verif/fixes/proposed_fix_C20_F3.diff applied (`__contains__` resolves strictly). *)
-Definition fixed_F3 : bool := false.
+Definition fixed_F3 : bool := true.
 Definition key_fallback (fixed : bool) (attrs : list string) (key : string) : result :=
   if negb fixed && mem key attrs then Ok else Err EPyRates.
 Definition verify_path_gen (fixed : bool) (attrs : list string) (net : network) (p : path) : result :=
@@ -368,9 +368,27 @@ Definition flat_probe_result (k : hkind) (depth : nat) (net : network) (p : path
   | HNodeValue => node_value net p
   | HOutput => resolve_outputs net [p]
   end.
-Definition hier_result (k : hkind) (depth : nat) (hnet : hnetwork) (p : path) : result :=
-  let cp := firstn depth p in
-  if circuit_known hnet cp then flat_probe_result k depth (subnet hnet cp) (skipn depth p) else Err EOther.
+(* ONE-LINE MODEL SWITCH (read by harness/c20.py): false = the code as it is (finding F4: a node_values key that is too
+   short for the hierarchy and whose node part names a CIRCUIT is dropped silently: get_nodes returns the circuit name,
+   no node consumes the value); true = the code with /verif/fixes/proposed_fix_C20_F4.diff (warns). *)
+Definition fixed_F4 : bool := false.
+(* `*node_id, op, var = key.split('/')`: the node part of a key *)
+Definition node_part (p : path) : list string := removelast (removelast p).
+Definition too_short (depth : nat) (p : path) : bool := Nat.ltb (List.length (node_part p)) (S depth).
+Definition names_circuit (hnet : hnetwork) (nid : list string) : bool :=
+  match nid with [] => false | _ => circuit_known hnet nid end.
+Definition nowhere : path := [""; ""; ""].
+(* after D73 a circuit level that does not exist behaves like a node that does not exist (the addressed sub-network is
+   empty): output -> PyRatesException (D48), input / update_var / node_values -> warning (D13, D49), edge -> KeyError.
+   A key that is too short: its node part names a circuit -> IndexError for outputs, inputs, update_var, silence (F4) for
+   node_values; it names nothing -> as for a node that does not exist. *)
+Definition hier_result_gen (fixed4 : bool) (k : hkind) (depth : nat) (hnet : hnetwork) (p : path) : result :=
+  if too_short depth p then
+    if names_circuit hnet (node_part p) then
+      match k with HNodeValue => if fixed4 then Warn else Ok | _ => Err EOther end
+    else flat_probe_result k depth [] nowhere
+  else flat_probe_result k depth (subnet hnet (firstn depth p)) (skipn depth p).
+Definition hier_result := hier_result_gen fixed_F4.
 
 (* =====================================================================================================
    Part 4 — the operator graph of a node: ir/operator_graph.py:52-95
@@ -470,8 +488,9 @@ Definition WellFormed (p : probe) : Prop :=
   | PNodeValue net p => NodeValueTarget net p
   | POutputs net outs => forall o, In o outs -> Path3 net o
   | POpGraph ops => ~ exists S, CyclicSet (map oname ops) (op_edges ops) S
-  | PHier k depth hnet p =>      (* the circuit levels name an existing circuit and the rest is present in it *)
-      circuit_known hnet (firstn depth p) = true /\
+  | PHier k depth hnet p =>      (* the key has depth + 3 components and what follows the circuit levels is present
+                                    in the sub-circuit they address *)
+      too_short depth p = false /\
       match k with
       | HNodeValue => NodeValueTarget (subnet hnet (firstn depth p)) (skipn depth p)
       | _ => Path3 (subnet hnet (firstn depth p)) (skipn depth p)
@@ -497,7 +516,7 @@ Definition wellformedb (p : probe) : bool :=
   | POutputs net outs => forallb (path3b net) outs
   | POpGraph ops => match toposort (map oname ops) (op_edges ops) with Some _ => true | None => false end
   | PHier k depth hnet p =>
-      circuit_known hnet (firstn depth p) &&
+      negb (too_short depth p) &&
       match k with
       | HNodeValue => node_value_targetb (subnet hnet (firstn depth p)) (skipn depth p)
       | _ => path3b (subnet hnet (firstn depth p)) (skipn depth p)
@@ -522,7 +541,12 @@ Definition wfprobeb (p : probe) : bool :=
 (* no component of the path is an attribute name of the circuit object *)
 Definition guard_path_not_attr (p : probe) : bool :=
   match p with PVerifyPath attrs _ pa => fixed_F3 || forallb (fun k => negb (mem k attrs)) pa | _ => true end.
-Definition guard (p : probe) : bool := guard_path_not_attr p.
+(* F4: not (a node_values key too short for the hierarchy whose node part names a circuit) *)
+Definition guard_node_value_not_circuit (p : probe) : bool :=
+  match p with
+  | PHier HNodeValue depth hnet pa => fixed_F4 || negb (too_short depth pa && names_circuit hnet (node_part pa))
+  | _ => true end.
+Definition guard (p : probe) : bool := guard_path_not_attr p && guard_node_value_not_circuit p.
 
 (* what the property demands of an observed outcome: a request that is not well-formed must not return quietly;
    a warning is enough for an input / update_var addressed to a missing variable, and for a node-level value
@@ -533,6 +557,7 @@ Definition warn_suffices (p : probe) : bool :=
   | PNodeValue net (n :: _) => match node_targets net n with [] => true | _ => false end
   | PHier HInput _ _ _ | PHier HUpdate _ _ _ => true
   | PHier HNodeValue depth hnet p =>
+      too_short depth p ||
       match skipn depth p with
       | n :: _ => match node_targets (subnet hnet (firstn depth p)) n with [] => true | _ => false end
       | [] => false
